@@ -135,8 +135,9 @@ def run(tier, seed):
             r.nontrivial.add(d)
     # the "while typing" family: every cursor line and a few columns of small incomplete documents
     ntyping = 150 if tier == "quick" else 3000
-    for i in range(ntyping):
-        t = proggen.typing_form(r.rng)
+    fixed_typing = proggen.typing_fixed()
+    for i in range(len(fixed_typing) + ntyping):
+        t = fixed_typing[i] if i < len(fixed_typing) else proggen.typing_form(r.rng)
         cases.case("ty%d" % i, {})
         cases.text("t", t)
         cases.raw("disk test_t.py t")
